@@ -92,101 +92,7 @@ func runC09(c *Ctx) {
 
 	// ---- R2 ----
 	c03StateTables(c, "C09-R2")
-	if drm0 := c.MustFunc("C09-R2", "internal/config.defaultRuleMatch"); drm0 != nil {
-		// follow a helper the body may have been extracted into (depth 1): the function that stores Match.State
-		drm := drm0
-		storesState := func(fi *FuncInfo) bool {
-			found := false
-			ast.Inspect(fi.Decl.Body, func(n ast.Node) bool {
-				if as, ok := n.(*ast.AssignStmt); ok {
-					for _, l := range as.Lhs {
-						if fieldSel(info, l, "internal/config.Match", "State") {
-							found = true
-						}
-					}
-				}
-				return true
-			})
-			return found
-		}
-		if !storesState(drm0) {
-			ast.Inspect(drm0.Decl.Body, func(n ast.Node) bool {
-				if call, ok := n.(*ast.CallExpr); ok {
-					if callee := p.FuncOf(Callee(info, call)); callee != nil && callee.Pkg == cfg && callee.Decl.Body != nil && storesState(callee) {
-						drm = callee
-					}
-				}
-				return true
-			})
-		}
-		// the defaulting function is applied to match blocks only
-		if drm != drm0 {
-			for _, cs := range p.CallersOf(drm.Obj) {
-				c.Check(cs.Caller == drm0, "C09-R2", "state defaulting helper called from "+cs.Caller.Name, cs.Call.Pos(), "only for match blocks", "the state default is also applied outside defaultRuleMatch (ignore blocks must not get a state default)")
-			}
-		}
-		fl := p.NewFlow(drm)
-		sig := drm.Obj.Type().(*types.Signature)
-		if paramIndex(sig, "defaultStates") < 0 {
-			c.Undecided("C09-R2", "defaultRuleMatch:defaultStates parameter", drm.Decl.Pos(), "parameter not found in "+drm.Name)
-			return
-		}
-		def := sig.Params().At(paramIndex(sig, "defaultStates"))
-		stores := fl.Find(func(n ast.Node) bool {
-			as, ok := n.(*ast.AssignStmt)
-			if !ok {
-				return false
-			}
-			for _, l := range as.Lhs {
-				if fieldSel(info, l, "internal/config.Match", "State") {
-					return true
-				}
-			}
-			return false
-		})
-		c.Check(len(stores) == 1, "C09-R2", "defaultRuleMatch:one store to Match.State", drm.Decl.Pos(), "single store", itoa(len(stores))+" stores to Match.State")
-		for _, s := range stores {
-			as := s.Inner.(*ast.AssignStmt)
-			fromDefault := objOf(info, as.Rhs[0]) == def
-			root, _, _ := accessPath(info, as.Lhs[0])
-			dom := fl.Dominated(s.Site, nil, func(a Atom) bool {
-				be, ok := ast.Unparen(a.E).(*ast.BinaryExpr)
-				if !ok || a.Tag != nil {
-					return false
-				}
-				call, ok := be.X.(*ast.CallExpr)
-				if !ok || exprStr(call.Fun) != "len" || !fieldSel(info, call.Args[0], "internal/config.Match", "State") {
-					return false
-				}
-				r, _, _ := accessPath(info, call.Args[0])
-				k, isC := constInt(info, be.Y)
-				if r != root || !isC || k != 0 {
-					return false
-				}
-				return (be.Op == token.EQL && a.Truth) || ((be.Op == token.GTR || be.Op == token.NEQ) && !a.Truth)
-			})
-			c.Check(fromDefault && dom, "C09-R2", "defaultRuleMatch:State defaulted only when empty", as.Pos(), "guarded by len(m.State)==0", "Match.State is overwritten even when the block sets it, or not from the command default")
-		}
-		// empty match list -> one block with the default states
-		okEmpty := false
-		for _, cl := range compositeLits(info, drm.Decl.Body, "internal/config.Match") {
-			if v := litField(cl, "State"); v != nil && objOf(info, v) == def && len(cl.Elts) == 1 {
-				okEmpty = true
-			}
-		}
-		if !okEmpty && drm != drm0 {
-			sig0 := drm0.Obj.Type().(*types.Signature)
-			if i := paramIndex(sig0, "defaultStates"); i >= 0 {
-				def0 := sig0.Params().At(i)
-				for _, cl := range compositeLits(info, drm0.Decl.Body, "internal/config.Match") {
-					if v := litField(cl, "State"); v != nil && objOf(info, v) == def0 && len(cl.Elts) == 1 {
-						okEmpty = true
-					}
-				}
-			}
-		}
-		c.Check(okEmpty, "C09-R2", "defaultRuleMatch:no match block -> state-only default block", drm.Decl.Pos(), "Match{State: defaultStates}", "a rule block without match{} no longer gets the state-only default")
-	}
+	c09StateDefault(c, "C09-R2")
 	for name, val := range map[string]string{"AlertingRuleType": "alerting", "RecordingRuleType": "recording"} {
 		k, _ := p.LookupObj("internal/config", name).(*types.Const)
 		got := ""
@@ -221,7 +127,7 @@ func runC09(c *Ctx) {
 			}
 			okPre := prefix == "^(?:" || prefix == "^(" || prefix == `\A(?:` || prefix == `\A(`
 			okSuf := suffix == ")$" || suffix == `)\z`
-			c.Check(shape && okPre && okSuf, "C09-R3", "strictRegex:wrapper groups the pattern; built as "+exprStr(pattern), pattern.Pos(), "prefix "+strq(prefix)+" suffix "+strq(suffix),
+			c.Check(shape && okPre && okSuf, "C09-R3", "strictRegex:wrapper groups the pattern; built as "+roleStr(info, pattern), pattern.Pos(), "prefix "+strq(prefix)+" suffix "+strq(suffix),
 				"strictRegex builds `"+exprStr(pattern)+"`: the anchors bind tighter than `|`, so name = \"foo|bar\" also selects `foobaz` (docs: patterns are fully anchored)")
 		}
 	}
@@ -503,4 +409,114 @@ func flattenConcat(e ast.Expr) []ast.Expr {
 		return append(flattenConcat(be.X), flattenConcat(be.Y)...)
 	}
 	return []ast.Expr{e}
+}
+
+// c09StateDefault: defaultRuleMatch fills Match.State from the command's
+// default states only when the block leaves it empty (len == 0, which covers
+// both an omitted and an explicitly empty list), only for match blocks, and a
+// rule without match{} gets the state-only default block. Shared by C09-R2 and
+// C03-R4 (which rules `pint ci` looks at is part of the change classification).
+func c09StateDefault(c *Ctx, R string) {
+	p := c.P
+	cfg := p.Pkg("internal/config")
+	if cfg == nil {
+		c.Undecided(R, "anchor:internal/config", token.NoPos, "package not found")
+		return
+	}
+	info := cfg.TypesInfo
+	if drm0 := c.MustFunc(R, "internal/config.defaultRuleMatch"); drm0 != nil {
+		// follow a helper the body may have been extracted into (depth 1): the function that stores Match.State
+		drm := drm0
+		storesState := func(fi *FuncInfo) bool {
+			found := false
+			ast.Inspect(fi.Decl.Body, func(n ast.Node) bool {
+				if as, ok := n.(*ast.AssignStmt); ok {
+					for _, l := range as.Lhs {
+						if fieldSel(info, l, "internal/config.Match", "State") {
+							found = true
+						}
+					}
+				}
+				return true
+			})
+			return found
+		}
+		if !storesState(drm0) {
+			ast.Inspect(drm0.Decl.Body, func(n ast.Node) bool {
+				if call, ok := n.(*ast.CallExpr); ok {
+					if callee := p.FuncOf(Callee(info, call)); callee != nil && callee.Pkg == cfg && callee.Decl.Body != nil && storesState(callee) {
+						drm = callee
+					}
+				}
+				return true
+			})
+		}
+		// the defaulting function is applied to match blocks only
+		if drm != drm0 {
+			for _, cs := range p.CallersOf(drm.Obj) {
+				c.Check(cs.Caller == drm0, R, "state defaulting helper called from "+cs.Caller.Name, cs.Call.Pos(), "only for match blocks", "the state default is also applied outside defaultRuleMatch (ignore blocks must not get a state default)")
+			}
+		}
+		fl := p.NewFlow(drm)
+		sig := drm.Obj.Type().(*types.Signature)
+		if paramIndex(sig, "defaultStates") < 0 {
+			c.Undecided(R, "defaultRuleMatch:defaultStates parameter", drm.Decl.Pos(), "parameter not found in "+drm.Name)
+			return
+		}
+		def := sig.Params().At(paramIndex(sig, "defaultStates"))
+		stores := fl.Find(func(n ast.Node) bool {
+			as, ok := n.(*ast.AssignStmt)
+			if !ok {
+				return false
+			}
+			for _, l := range as.Lhs {
+				if fieldSel(info, l, "internal/config.Match", "State") {
+					return true
+				}
+			}
+			return false
+		})
+		c.Check(len(stores) == 1, R, "defaultRuleMatch:one store to Match.State", drm.Decl.Pos(), "single store", itoa(len(stores))+" stores to Match.State")
+		for _, s := range stores {
+			as := s.Inner.(*ast.AssignStmt)
+			fromDefault := objOf(info, as.Rhs[0]) == def
+			root, _, _ := accessPath(info, as.Lhs[0])
+			dom := fl.Dominated(s.Site, nil, func(a Atom) bool {
+				be, ok := ast.Unparen(a.E).(*ast.BinaryExpr)
+				if !ok || a.Tag != nil {
+					return false
+				}
+				call, ok := be.X.(*ast.CallExpr)
+				if !ok || exprStr(call.Fun) != "len" || !fieldSel(info, call.Args[0], "internal/config.Match", "State") {
+					return false
+				}
+				r, _, _ := accessPath(info, call.Args[0])
+				k, isC := constInt(info, be.Y)
+				if r != root || !isC || k != 0 {
+					return false
+				}
+				return (be.Op == token.EQL && a.Truth) || ((be.Op == token.GTR || be.Op == token.NEQ) && !a.Truth)
+			})
+			c.Check(fromDefault && dom, R, "defaultRuleMatch:State defaulted only when empty", as.Pos(), "guarded by len(m.State)==0", "Match.State is overwritten even when the block sets it, or not from the command default")
+		}
+		// empty match list -> one block with the default states
+		okEmpty := false
+		for _, cl := range compositeLits(info, drm.Decl.Body, "internal/config.Match") {
+			if v := litField(cl, "State"); v != nil && objOf(info, v) == def && len(cl.Elts) == 1 {
+				okEmpty = true
+			}
+		}
+		if !okEmpty && drm != drm0 {
+			sig0 := drm0.Obj.Type().(*types.Signature)
+			if i := paramIndex(sig0, "defaultStates"); i >= 0 {
+				def0 := sig0.Params().At(i)
+				for _, cl := range compositeLits(info, drm0.Decl.Body, "internal/config.Match") {
+					if v := litField(cl, "State"); v != nil && objOf(info, v) == def0 && len(cl.Elts) == 1 {
+						okEmpty = true
+					}
+				}
+			}
+		}
+		c.Check(okEmpty, R, "defaultRuleMatch:no match block -> state-only default block", drm.Decl.Pos(), "Match{State: defaultStates}", "a rule block without match{} no longer gets the state-only default")
+	}
 }
